@@ -20,8 +20,12 @@ def rand_descriptors(rng):
     for _ in range(rng.randrange(0, 4)):
         tr = None
         r = rng.random()
-        if r < 0.4:
+        if r < 0.3:
             tr = rng.sample(TRANSPORTS, rng.randrange(1, 4))
+        elif r < 0.4:
+            # the caller's list as given: a member may occur more than once
+            tr = [rng.choice(TRANSPORTS) for _ in range(rng.randrange(2, 5))]
+            tr.append(tr[0])
         elif r < 0.5:
             tr = []
         out.append({"id": rng.bytes_(rng.choice([1, 16, 32, 64])), "transports": tr})
@@ -80,6 +84,8 @@ def rand_reg_args(rng):
         a["supported_algs"] = rng.sample(ALGS, rng.randrange(0, 5))
     if rng.random() < 0.4:
         a["hints"] = rng.sample([h.value for h in PublicKeyCredentialHint], rng.randrange(0, 3))
+        if a["hints"] and rng.random() < 0.3:
+            a["hints"] = a["hints"] + [a["hints"][0]]          # a repeated hint is still the caller's list
     return a
 
 
